@@ -14,6 +14,7 @@ import SkNet.Lemmas.Builders
 import SkNet.Lemmas.Split
 import SkNet.Lemmas.SplitAgree
 import SkNet.Lemmas.SplitPin
+import SkNet.Lemmas.TerminateHierarchy
 import SkNet.Lemmas.MergeW
 import SkNet.Lemmas.ParisMono
 import SkNet.Lemmas.Reducible
@@ -321,6 +322,31 @@ theorem louvainHierarchy_valid (n : Nat) (hn : 2 ≤ n) (first : List Nat) (more
     simp [tleaves] at this
     omega
   | node ts => exact louvain_pipeline_valid ts n hwf hperm
+
+theorem chained_of_seqOK : ∀ (more : List (List Nat)) (k : Nat), SeqOK more k → SkNet.Terminate.Chained k more := by
+  intro more
+  induction more with
+  | nil => intro k _; trivial
+  | cons next rest ih => intro k h; exact ⟨h.1, ih _ h.2⟩
+
+/-- **LouvainHierarchy, total**: with more recorded rounds of Louvain than clusters of the first round (the `while`
+    loop of `_get_hierarchy` stops as soon as a round does not reduce the number of clusters:
+    `SkNet.Terminate.getHierarchyLoop_terminates`), the loop ends and `dendrogram_` is a valid dendrogram over the
+    `n` nodes with non-decreasing heights. -/
+theorem louvainHierarchy_total (n : Nat) (hn : 2 ≤ n) (first : List Nat) (more : List (List Nat))
+    (hfirst : first.length = n) (hok : SeqOK more (uniqueSorted first).length)
+    (hlen : (uniqueSorted first).length < more.length) :
+    ∃ t D, getHierarchy n (first :: more) = some t ∧ treePipeline t = .ok D ∧ ValidDendro n D = true ∧
+      heightsSorted D = true := by
+  have hne := SkNet.Terminate.getHierarchyLoop_terminates more ((List.range n).map .leaf) first (uniqueSorted first)
+    (chained_of_seqOK more _ hok) hlen
+  obtain ⟨t, ht⟩ : ∃ t, getHierarchy n (first :: more) = some t := by
+    unfold getHierarchy
+    cases hl : getHierarchyLoop more ((List.range n).map .leaf) first (uniqueSorted first) with
+    | none => exact absurd hl hne
+    | some items => simp only [hl, Option.map_some]; exact ⟨_, rfl⟩
+  obtain ⟨D, h1, h2, h3⟩ := louvainHierarchy_valid n hn first more t hfirst hok ht
+  exact ⟨t, D, ht, h1, h2, h3⟩
 
 /-- non-vacuity: Louvain puts the 3 nodes of a triangle in one cluster (the witness of F8) -/
 example : (match getHierarchy 3 [[0, 0, 0], [0]] with
@@ -733,41 +759,51 @@ theorem paris_total (round32 : ℚ → ℚ) (csr : List (List (Nat × ℚ))) (ou
       obtain ⟨h1, h2⟩ := paris_valid round32 fuel csr outW inW reorder hfit
       exact Or.inr ⟨D, rfl, h1, h2⟩
 
-/-- non-vacuity: the graph with one edge between two nodes satisfies the hypothesis, and with the fuel of the
-    theorem `Paris.fit` returns a valid dendrogram -/
-example : NbInv (AggGraph.init [[(1, (1 : ℚ) / 2)], [(0, 1 / 2)]] [1 / 2, 1 / 2] [1 / 2, 1 / 2]).nb 2 ∧
-    (match Paris.fit (α := ℚ) id 57 (AggGraph.init [[(1, (1 : ℚ) / 2)], [(0, 1 / 2)]] [1 / 2, 1 / 2] [1 / 2, 1 / 2])
+/-- non-vacuity: the 4-cycle with unit weights (every similarity is tied, so the tie rule decides every step)
+    satisfies the hypothesis, and with the fuel of the theorem `Paris.fit` returns a valid sorted dendrogram -/
+example : NbInv (AggGraph.init [[(1, (1 : ℚ) / 8), (3, 1 / 8)], [(0, 1 / 8), (2, 1 / 8)], [(1, 1 / 8), (3, 1 / 8)],
+        [(0, 1 / 8), (2, 1 / 8)]] [1 / 4, 1 / 4, 1 / 4, 1 / 4] [1 / 4, 1 / 4, 1 / 4, 1 / 4]).nb 4 ∧
+    (match Paris.fit (α := ℚ) id 335 (AggGraph.init [[(1, (1 : ℚ) / 8), (3, 1 / 8)], [(0, 1 / 8), (2, 1 / 8)],
+        [(1, 1 / 8), (3, 1 / 8)], [(0, 1 / 8), (2, 1 / 8)]] [1 / 4, 1 / 4, 1 / 4, 1 / 4] [1 / 4, 1 / 4, 1 / 4, 1 / 4])
         true with
-      | .ok (some D) => ValidDendro 2 D
+      | .ok (some D) => ValidDendro 4 D && heightsSorted D
       | _ => false) = true := by
   refine ⟨?_, by decide +kernel⟩
-  have hnb : (AggGraph.init [[(1, (1 : ℚ) / 2)], [(0, 1 / 2)]] [1 / 2, 1 / 2] [1 / 2, 1 / 2]).nb =
-      [(0, [(1, 1 / 2)]), (1, [(0, 1 / 2)])] := by decide +kernel
+  have hnb : (AggGraph.init [[(1, (1 : ℚ) / 8), (3, 1 / 8)], [(0, 1 / 8), (2, 1 / 8)], [(1, 1 / 8), (3, 1 / 8)],
+        [(0, 1 / 8), (2, 1 / 8)]] [1 / 4, 1 / 4, 1 / 4, 1 / 4] [1 / 4, 1 / 4, 1 / 4, 1 / 4]).nb =
+      [(0, [(1, 1 / 8), (3, 1 / 8)]), (1, [(0, 1 / 8), (2, 1 / 8)]), (2, [(1, 1 / 8), (3, 1 / 8)]),
+       (3, [(0, 1 / 8), (2, 1 / 8)])] := by decide +kernel
   rw [hnb]
-  have hrow : ∀ x, row ([(0, [(1, (1 : ℚ) / 2)]), (1, [(0, 1 / 2)])] : Dict (Dict ℚ)) x =
-      if x = 0 then [(1, 1 / 2)] else if x = 1 then [(0, 1 / 2)] else [] := by
+  have hrow : ∀ x, row ([(0, [(1, (1 : ℚ) / 8), (3, 1 / 8)]), (1, [(0, 1 / 8), (2, 1 / 8)]),
+      (2, [(1, 1 / 8), (3, 1 / 8)]), (3, [(0, 1 / 8), (2, 1 / 8)])] : Dict (Dict ℚ)) x =
+      if x = 0 then [(1, 1 / 8), (3, 1 / 8)] else if x = 1 then [(0, 1 / 8), (2, 1 / 8)]
+      else if x = 2 then [(1, 1 / 8), (3, 1 / 8)] else if x = 3 then [(0, 1 / 8), (2, 1 / 8)] else [] := by
     intro x
-    rcases x with _ | _ | x <;> simp [row, Dict.get?]
+    rcases x with _ | _ | _ | _ | x <;> simp [row, Dict.get?]
   refine ⟨?_, ?_, ?_, ?_, ?_⟩
   · intro x
     rw [hrow]
-    rcases x with _ | _ | x <;> simp [Dict.keys]
+    rcases x with _ | _ | _ | _ | x <;> simp [Dict.keys]
   · intro x y
     unfold K
     rw [hrow, hrow]
-    rcases x with _ | _ | x <;> rcases y with _ | _ | y <;> simp [Dict.contains, Dict.get?]
+    rcases x with _ | _ | _ | _ | x <;> rcases y with _ | _ | _ | _ | y <;> simp [Dict.contains, Dict.get?]
   · intro x z hz
     unfold K
     rw [hrow]
-    rcases x with _ | _ | x <;> simp [Dict.contains, Dict.get?] <;> omega
+    have e0 : ¬ 0 = z := by omega
+    have e1 : ¬ 1 = z := by omega
+    have e2 : ¬ 2 = z := by omega
+    have e3 : ¬ 3 = z := by omega
+    rcases x with _ | _ | _ | _ | x <;> simp [Dict.contains, Dict.get?, e0, e1, e2, e3]
   · intro x y
     unfold getEntry
     rw [hrow, hrow]
-    rcases x with _ | _ | x <;> rcases y with _ | _ | y <;> simp [Dict.get?]
+    rcases x with _ | _ | _ | _ | x <;> rcases y with _ | _ | _ | _ | y <;> simp [Dict.get?]
   · intro x y
     unfold getEntry
     rw [hrow]
-    rcases x with _ | _ | x <;> rcases y with _ | _ | y <;> simp [Dict.get?]
+    rcases x with _ | _ | _ | _ | x <;> rcases y with _ | _ | _ | _ | y <;> simp [Dict.get?]
 
 end parisTerminates
 
